@@ -18,6 +18,15 @@ WORK = os.path.join(ROOT, "work")
 REPO = os.environ.get("VERIF_REPO", "/repo")
 GOENV = dict(os.environ, GOFLAGS="-mod=mod", GOPROXY="off", GOSUMDB="off", GOTOOLCHAIN="local",
              VERIF_REPO=REPO)
+# A tree other than /repo (VERIF_REPO=/tmp/scratch-worktree ./check Cnn: used to try the checks on a
+# seeded change without touching /repo) gets its own scratch area, go.mod and evidence directory, so
+# that it never disturbs, and is never disturbed by, checks running against /repo at the same time.
+ALT = os.path.realpath(REPO) != "/repo"
+if ALT:
+    import hashlib
+    WORK = os.path.join(WORK, "alt-" + hashlib.sha1(os.path.realpath(REPO).encode()).hexdigest()[:10])
+EVIDENCE_DIR = os.path.join(WORK, "evidence") if ALT else os.path.join(ROOT, "evidence")
+MODFILE = os.path.join(WORK, "gomod", "go.mod")
 FORBIDDEN = re.compile(r'\b(Admitted|admit|Axiom|Axioms|Parameter|Parameters|Conjecture|Conjectures|'
                        r'Admit Obligations|bypass_check|Hypothesis|Hypotheses|Variable|Variables)\b|'
                        r'Unset\s+(Guard|Positivity|Universe)\s+Checking|type-in-type|impredicative-set')
@@ -37,8 +46,9 @@ def sh(cmd, cwd=None, env=None, timeout=None, check=False):
 
 class Lock:
     def __init__(self, name):
-        os.makedirs(WORK, exist_ok=True)
-        self.path = os.path.join(WORK, "." + name + ".lock")
+        base = os.path.join(ROOT, "work")   # shared by /repo and scratch-tree runs: coq/ is one build directory
+        os.makedirs(base, exist_ok=True)
+        self.path = os.path.join(base, "." + name + ".lock")
 
     def __enter__(self):
         self.f = open(self.path, "w")
@@ -176,9 +186,11 @@ def build_driver(cfg):
     name = cfg["driver"]
     os.makedirs(os.path.join(WORK, "bin"), exist_ok=True)
     with Lock("gomod"):
-        sh([sys.executable, os.path.join(ROOT, "tools", "gen_gomod.py")], env=GOENV, check=True)
+        sh([sys.executable, os.path.join(ROOT, "tools", "gen_gomod.py"), os.path.dirname(MODFILE)], env=GOENV, check=True)
+        if not os.path.exists(os.path.join(HARNESS, "go.mod")):   # only marks the module root under -modfile
+            sh([sys.executable, os.path.join(ROOT, "tools", "gen_gomod.py")], env=dict(GOENV, VERIF_REPO="/repo"), check=True)
     tags = cfg.get("build_tags", "verif")
-    cmd = ["go", "build", "-tags", tags, "-o", os.path.join(WORK, "bin", name), "./cmd/" + name]
+    cmd = ["go", "build", "-modfile", MODFILE, "-tags", tags, "-o", os.path.join(WORK, "bin", name), "./cmd/" + name]
     rc, out = sh(cmd, cwd=HARNESS, env=GOENV, timeout=1200)
     return rc == 0, out
 
@@ -307,7 +319,7 @@ def trim(o, limit=1200):
 def check(pid, tier, seed):
     t0 = time.time()
     cfg = load_cfg(pid)
-    evidence_path = os.path.join(ROOT, "evidence", pid + ".json")
+    evidence_path = os.path.join(EVIDENCE_DIR, pid + ".json")
     os.makedirs(os.path.dirname(evidence_path), exist_ok=True)
     violations, known_lines, notes = [], [], []
 
@@ -544,12 +556,13 @@ def setup():
         failures += 1
         print("WARNING coq build incomplete:\n" + out[-3000:])
     with Lock("gomod"):
+        sh([sys.executable, os.path.join(ROOT, "tools", "gen_gomod.py"), os.path.dirname(MODFILE)], env=GOENV, check=True)
         sh([sys.executable, os.path.join(ROOT, "tools", "gen_gomod.py")], env=GOENV, check=True)
     os.makedirs(os.path.join(WORK, "bin"), exist_ok=True)
     drivers = sorted({c["driver"] for c in cfgs if c.get("driver")})
 
     def b(name):
-        return name, sh(["go", "build", "-tags", "verif", "-o", os.path.join(WORK, "bin", name), "./cmd/" + name],
+        return name, sh(["go", "build", "-modfile", MODFILE, "-tags", "verif", "-o", os.path.join(WORK, "bin", name), "./cmd/" + name],
                         cwd=HARNESS, env=GOENV, timeout=3000)
     with cf.ThreadPoolExecutor(max_workers=4) as ex:
         for name, (rc, out) in ex.map(b, drivers):
